@@ -188,11 +188,28 @@ class Program:
                     out.append(r)
         return out
 
+    def private_callees(self, body, depth=2):
+        """Private functions a function calls (transitively, to a small depth): what it may have been split into."""
+        idx = {b.path: b for b in self.lib_bodies()}
+        seen, todo = [], [(body, 0)]
+        while todo:
+            fb, d = todo.pop()
+            for bb, t in fb.calls():
+                nm = t["callee"].get("resolved") or t["callee"].get("path") or ""
+                hb = idx.get(nm)
+                if hb is not None and not hb.is_pub and hb.kind in ("Fn", "AssocFn") and hb not in seen and hb is not body:
+                    seen.append(hb)
+                    if d + 1 < depth:
+                        todo.append((hb, d + 1))
+        return seen
+
     def str_literals(self, body):
-        """String literals a function can see: those in its own MIR and in the closures defined in it, plus the
-        contents of the named constants they mention (a literal moved into a `const` table stays visible)."""
+        """String literals a function can see: those in its own MIR, in the closures defined in it and in the private
+        helpers it calls, plus the contents of the named constants they mention (a literal moved into a `const` table
+        or a helper stays visible)."""
         out = []
-        for b in [body] + [c for c in self.lib_bodies() if c.kind == "Closure" and (c.parent == body.path or c.path.startswith(body.path + "::"))]:
+        roots = [body] + self.private_callees(body)
+        for b in roots + [c for c in self.lib_bodies() if c.kind == "Closure" and any(c.parent == r.path or c.path.startswith(r.path + "::") for r in roots)]:
             for r in _mir_consts(b.mir, []):
                 if r.startswith('"'):
                     out.append(r.strip('"'))
